@@ -16,7 +16,7 @@ var rtcmPkgs = []string{"rtcm/handler", "rtcm/header", "rtcm/utils", "rtcm/pushb
 	"rtcm/type_msm7/message", "rtcm/type_msm7/satellite", "rtcm/type_msm7/signal"}
 
 func checkC15(c *Ctx) {
-	c.Explanation = "Decides the absence of hidden state on the decode/display path: (R1) package-level variables of the rtcm packages are written (assignments, map updates, deletes, element stores) only in init functions, so every frame and every handler sees the same tables; (R2) no code reachable from decoding or display stores through the raw byte buffer of a frame (the []byte input of the decoders, Message.RawData); (R3) display is idempotent: String, PrepareForDisplay, Analyse and their helpers store only into fields of the message they are given, never a value computed from that field's previous content (no append/accumulate), and never into MessageType, RawData or the time lines; (R4) the handler retains no buffer: Handler and the push-back channel have no field that could alias a delivered RawData other than the push-back bytes, and each delivered RawData derives from an allocation made in the same fetch; (R5) consumers get independent copies: the pipeline sends Message values (not pointers) and neither the framer nor the fan-out calls String/Analyse before sending, so the Readable part is nil when the copies are made and RawData is never written afterwards (R2); (R6) decoding and display read no package variable that is written outside init. (R7) whether a time conversion reports an error is decided by the timestamp alone, never by the handler's stored week state, so the error text of a message does not depend on the frames decoded before it. R5 also requires Message.Copy to allocate new bytes and leave the decoded form unset."
+	c.Explanation = "Decides the absence of hidden state on the decode/display path: (R1) package-level variables of the rtcm packages are written (assignments, map updates, deletes, element stores) only in init functions, so every frame and every handler sees the same tables; (R2) no code reachable from decoding or display stores through the raw byte buffer of a frame (the []byte input of the decoders, Message.RawData); (R3) display is idempotent: String, PrepareForDisplay, Analyse and their helpers store only into fields of the message they are given, never a value computed from that field's previous content (no append/accumulate), and never into MessageType, RawData or the time lines; (R4) the handler retains no buffer: Handler and the push-back channel have no field that could alias a delivered RawData other than the push-back bytes, and each delivered RawData derives from an allocation made in the same fetch; (R5) consumers get independent copies: the pipeline sends Message values (not pointers) and neither the framer nor the fan-out calls String/Analyse before sending, so the Readable part is nil when the copies are made and RawData is never written afterwards (R2); (R6) decoding and display read no package variable that is written outside init. (R7) whether a time conversion reports an error is decided by the timestamp alone, never by the handler's stored week state, so the error text of a message does not depend on the frames decoded before it. R5 also requires Message.Copy to allocate new bytes and leave the decoded form unset. (R8) no function on the decode/display path ranges over a map except to collect its keys into a slice that is then sorted: Go randomises map iteration, so anything else makes repeated displays differ."
 	c.NotDecided = "the MSM time lines (by design they follow the handler's history); purity of fmt/hex/time formatting."
 	P := c.P
 	roots := c07Roots(c, "C15-anchor")
@@ -56,6 +56,8 @@ func checkC15(c *Ctx) {
 
 	// ---- R2 raw buffers are never written
 	ruleRawBuffersReadOnly(c, "C15-R2", reach)
+	// ---- R8 no result depends on the iteration order of a map
+	ruleNoMapOrder(c, "C15-R8", reach)
 	// ---- R3 display stores
 	M := P.Named("rtcm/handler", "Message")
 	dispRoots := []*ssa.Function{P.Func("rtcm/handler", "(*Message).String"), P.Func("rtcm/handler", "PrepareForDisplay"), P.Func("rtcm/handler", "Analyse")}
@@ -655,5 +657,99 @@ func ruleRawBuffersReadOnly(c *Ctx, rule string, fns map[*ssa.Function]bool) {
 	}
 	if nst == 0 {
 		c.OK(rule, "raw-buffers-read-only", token.NoPos, fmt.Sprintf("no store, copy or in-place append into a non-local byte buffer in %d functions", len(fns)))
+	}
+}
+
+// ruleNoMapOrder (C15-R8): Go randomises the iteration order of maps.  On the decode/display path a
+// `for k, v := range m` is accepted only in the collect-and-sort form: key and value are used for nothing
+// but appends, and the function sorts (package sort or slices) on a path after the loop.  Positive control:
+// the detector must see the module's one sorted map walk (the queue's key helper).
+func ruleNoMapOrder(c *Ctx, rule string, fns map[*ssa.Function]bool) {
+	P := c.P
+	classify := func(fn *ssa.Function, rg *ssa.Range) (bool, string) {
+		onlyAppend := true
+		for _, r := range referrers(rg) {
+			nx, ok := r.(*ssa.Next)
+			if !ok {
+				continue
+			}
+			for _, r2 := range referrers(nx) {
+				ex, ok := r2.(*ssa.Extract)
+				if !ok || ex.Index == 0 {
+					continue
+				}
+				for _, u := range referrers(ex) {
+					switch x := u.(type) {
+					case *ssa.Store:
+						// element of the variadic scratch array of an append
+						if ia, ok := x.Addr.(*ssa.IndexAddr); ok {
+							if _, isAl := ia.X.(*ssa.Alloc); isAl {
+								continue
+							}
+						}
+						onlyAppend = false
+					case *ssa.Call:
+						if b, ok := x.Call.Value.(*ssa.Builtin); !ok || b.Name() != "append" {
+							onlyAppend = false
+						}
+					case *ssa.DebugRef:
+					default:
+						onlyAppend = false
+					}
+				}
+			}
+		}
+		if !onlyAppend {
+			return false, "the keys or values of a map are used in iteration order"
+		}
+		q := pathQuery{goal: func(i ssa.Instruction) bool {
+			f := staticCallee(i)
+			if f == nil || f.Object() == nil || f.Object().Pkg() == nil {
+				return false
+			}
+			pp := f.Object().Pkg().Path()
+			return pp == "sort" || (pp == "slices" && strings.HasPrefix(f.Name(), "Sort"))
+		}}
+		if path, _ := q.search(rg.Block(), instrIndex(rg)); path == nil {
+			return false, "the collected keys are not sorted afterwards"
+		}
+		return true, ""
+	}
+	isMapRange := func(ins ssa.Instruction) *ssa.Range {
+		rg, ok := ins.(*ssa.Range)
+		if !ok {
+			return nil
+		}
+		if _, isMap := rg.X.Type().Underlying().(*types.Map); !isMap {
+			return nil
+		}
+		return rg
+	}
+	n := 0
+	for fn := range fns {
+		eachInstr(fn, func(ins ssa.Instruction) {
+			rg := isMapRange(ins)
+			if rg == nil {
+				return
+			}
+			n++
+			ok, why := classify(fn, rg)
+			c.Check(ok, rule, "map-order("+P.FnKey(fn)+")", rg.Pos(), "map walked only to collect keys that are then sorted",
+				why+": Go randomises map iteration, so the result differs from one call to the next")
+		})
+	}
+	control := 0
+	for _, fn := range P.ModFuncs() {
+		eachInstr(fn, func(ins ssa.Instruction) {
+			if rg := isMapRange(ins); rg != nil {
+				if ok, _ := classify(fn, rg); ok {
+					control++
+				}
+			}
+		})
+	}
+	c.Check(control >= 1, rule, "positive-control(sorted map walk)", token.NoPos, fmt.Sprintf("the detector recognises %d collect-and-sort map walks in the module", control), "the map-range detector does not see the module's sorted map walk (it would pass vacuously)")
+	if n == 0 {
+		c.OK(rule, "map-order", token.NoPos, fmt.Sprintf("no range over a map in the %d functions of the decode/display path", len(fns)))
 	}
 }
